@@ -222,7 +222,7 @@ def case(r, hyg=None, spell=0):
     elif cons == "collect":
         # collect_const! needs a const context: one const item per input
         ks = []
-        for idx, inp in enumerate(INPUTS):
+        for idx, inp in enumerate(r.get("ins") or INPUTS):
             lit = "&[%s]" % ", ".join("%du64" % x for x in inp)
             ks.append("{ const I: &[u64] = %s; const A: &[%s] = &konst::iter::collect_const!(%s => I, copied()%s); "
                       "format!(\"{:?}\", A.iter().map(|&%s| %s).collect::<Vec<u64>>()) }"
@@ -242,7 +242,7 @@ def case(r, hyg=None, spell=0):
         sf = ("fn s(inp: &[u64]) -> String { " + cnts + " format!(\"{:?}\", inp.iter().copied()%s.%s%s) }"
               % ("".join("." + x for x in sparts), cts, postks))
         call = "format!(\"K:{};S:{}\", INS.iter().map(|i| k(i)).collect::<Vec<_>>().join(\"|\"), INS.iter().map(|i| s(i)).collect::<Vec<_>>().join(\"|\"))"
-    ins = "const INS: &[&[u64]] = &[%s];" % ", ".join("&[%s]" % ", ".join("%du64" % x for x in i) for i in INPUTS)
+    ins = "const INS: &[&[u64]] = &[%s];" % ", ".join("&[%s]" % ", ".join("%du64" % x for x in i) for i in (r.get("ins") or INPUTS))
     body = "%s %s %s %s %s" % (pre, ins, kf, sf, call)
     exp = "|".join(render(x) for x in r["exp"])
     model = "|".join(render(x) for x in r["model"])
